@@ -4,6 +4,8 @@
   OBLIGATIONS: C04_resize_ramp C04_sample_ramp C04_sample_ramp_self C04_crop_offsets_agree C04_pad_offsets_agree
     C04_center_crop_offsets_agree C04_center_pad_offsets_agree C04_roi_offsets_agree
     C04_narrow_offsets_agree C04_conv_offsets_agree C04_shift_keeps_world
+    C04_pyramid_resize_path_sound C04_pyramid_resize_path_value C04_pyramid_paths_agree
+    C04_pyramid_finest_sound C04_pyramid_mixed_flags_refuted
 
   The grid half of the index-only operations (new grid = old spacing/direction, origin at old index
   `first`) and the resizing family are C03's theorems; here the data half is shown to use the same
@@ -12,11 +14,17 @@
   call the same `F.interpolate` + `Grid._resize` pair with integral target sizes).
   Partial: `resample` (sampling path, fractional grid size) and blurred down/upsampling are covered by the
   correspondence and the ramp oracle of harness/props/c04.py only.
+  `ImageBatch.pyramid` chooses between the plain data resize and sampling at the new grid's points by comparing
+  cube extents of the finest-level grid and of the image grid RE-FLAGGED with the requested `align_corners`:
+  `C04_pyramid_resize_path_sound` / `_value` / `C04_pyramid_paths_agree` show that the shortcut is sound when both
+  extents are taken in the same convention; `C04_pyramid_mixed_flags_refuted` shows that the pre-repair comparison
+  (image grid under its own flag, before 8cc5ad1) was not.
 -/
 import Deepali.Model.ImageOps
 import Deepali.Proofs.Ramp
 import Deepali.Proofs.ResizeRamp
 import Deepali.Proofs.Examples
+import Deepali.Proofs.PyramidPath
 import Mathlib.Tactic.Linarith
 import Mathlib.Tactic.Ring
 
@@ -130,8 +138,138 @@ theorem C04_shift_keeps_world (g : Grid d K) (first : Fin d → Int) (size' : Ve
   have hsplit : (fun i => j i + ((first i : Int) : K)) = j + fun i => ((first i : Int) : K) := rfl
   rw [hsplit, mulVec_eq, mulVec_eq, mulVec_eq, Matrix.mulVec_add]; abel
 
+
+/-! ### `ImageBatch.pyramid`: the resize shortcut for the finest level
+  src: src/deepali/data/image.py `ImageBatch.pyramid` @708-741. `source_grids` are the image grids re-flagged with
+  the requested `align_corners` (`grid.align_corners(align_corners)` @709-710), `grids` the finest-level grids
+  derived from them by `Grid.resample` / `Grid.pyramid` (same centre, direction and flag). If
+  `allclose(grids[0].cube_extent(), source_grids[0].cube_extent())` the data is resized with
+  `U.grid_resize(self, size, align_corners=align_corners)`, otherwise the source is sampled at
+  `grid_transform_points(grid.coords(align_corners), grid, axes, source_grid, axes)` with
+  `axes = Axes.from_align_corners(align_corners)` — which is `sampleOnGrid src new` of Model/Sample.lean for a
+  source flagged `ac`. -/
+
+/-- **the resize shortcut of `ImageBatch.pyramid` is sound**: for two valid grids under the SAME flag `ac` with the
+    same centre and direction and equal `cube_extent()`, the point map the sampling path would apply
+    (normalised coordinates w.r.t. the new grid ↦ normalised coordinates w.r.t. the source grid, both in the
+    convention `ac`) is the identity — for any oriented anisotropic grids and any sizes (at least two samples per
+    axis when `ac = true`, since CUBE_CORNERS divides by `n − 1`). -/
+theorem C04_pyramid_resize_path_sound {src new : Grid d K} {n n' : Fin d → Nat} (ac : Bool)
+    (hs : src.Valid) (hn : new.Valid) (hsn : src.HasSize n) (hnn : new.HasSize n')
+    (hs2 : ac = true → ∀ i, 2 ≤ n i) (hn2 : ac = true → ∀ i, 2 ≤ n' i)
+    (hfs : src.alignCorners = ac) (hfn : new.alignCorners = ac)
+    (hc : new.center = src.center) (hd : new.direction = src.direction)
+    (he : new.cubeExtent = src.cubeExtent) (p : Vec d K) :
+    new.applyTransformTo (Axes.fromAlignCorners ac) src (Axes.fromAlignCorners ac) false p = p :=
+  pyramid_cube_map_id ac hs hn hsn hnn hs2 hn2 hfs hfn hc hd he p
+
+/-- hence the sampling path looks the source up at the new grid's own normalised lattice
+    `new.coords(align_corners=ac)` — any image, either padding mode, any (fractional) index `j`. -/
+theorem C04_pyramid_resize_path_value {src new : Grid d K} {n n' : Fin d → Nat} (ac : Bool)
+    (hs : src.Valid) (hn : new.Valid) (hsn : src.HasSize n) (hnn : new.HasSize n')
+    (hs2 : ac = true → ∀ i, 2 ≤ n i) (hn2 : ac = true → ∀ i, 2 ≤ n' i)
+    (hfs : src.alignCorners = ac) (hfn : new.alignCorners = ac)
+    (hc : new.center = src.center) (hd : new.direction = src.direction)
+    (he : new.cubeExtent = src.cubeExtent) (pad : Padding) (img : (Fin d → Int) → K) (j : Vec d K) :
+    sampleOnGrid src new n n' pad img j = gridSampleLin ac pad n img (fun i => coordAt (n' i) ac (j i)) := by
+  simp only [sampleOnGrid, sampleCoord, hfs]
+  rw [C04_pyramid_resize_path_sound ac hs hn hsn hnn hs2 hn2 hfs hfn hc hd he]
+
+/-- **both paths of `ImageBatch.pyramid` return the same data**: under the hypotheses of the decision,
+    `F.interpolate(data, n', align_corners=ac)` (the resize path) equals sampling the source at the new grid's points
+    (the other path), for ANY image, at every output sample whose source index lies in the sample hull `[0, n−1]^d`
+    (for `ac = true` every output sample qualifies). -/
+theorem C04_pyramid_paths_agree {src new : Grid d K} {n n' : Fin d → Nat} (ac : Bool)
+    (hs : src.Valid) (hn : new.Valid) (hsn : src.HasSize n) (hnn : new.HasSize n')
+    (hs2 : ac = true → ∀ i, 2 ≤ n i) (hn2 : ∀ i, 2 ≤ n' i)
+    (hfs : src.alignCorners = ac) (hfn : new.alignCorners = ac)
+    (hc : new.center = src.center) (hd : new.direction = src.direction)
+    (he : new.cubeExtent = src.cubeExtent) (img : (Fin d → Int) → K) (j : Fin d → Nat)
+    (hin : ∀ i, 0 ≤ resizeSrc (K := K) ac n n' j i ∧ resizeSrc (K := K) ac n n' j i ≤ ((n i : Nat) : K) - 1) :
+    interpolateLin ac n n' img j = sampleOnGrid src new n n' .zeros img (fun i => ((j i : Nat) : K)) := by
+  rw [C04_pyramid_resize_path_value ac hs hn hsn hnn hs2 (fun _ => hn2) hfs hfn hc hd he]
+  have hsrc : (fun i => interpolateSrc (α := K) ac (n i) (n' i) (j i)) = resizeSrc ac n n' j := by
+    funext i
+    have hm : ¬ n' i ≤ 1 := by have := hn2 i; omega
+    have h0 := (hin i).1
+    cases ac
+    · simp only [interpolateSrc, resizeSrc, Bool.false_eq_true, if_false, Nat.cast_one, Nat.cast_ofNat, Nat.cast_zero] at h0 ⊢
+      rw [if_neg (not_lt.mpr h0)]
+    · simp only [interpolateSrc, resizeSrc, if_true, hm, if_false, Nat.cast_one]
+  have hx : (fun i => unnormalize ac ((n i : Nat) : K) (coordAt (n' i) ac ((j i : Nat) : K))) = resizeSrc ac n n' j := by
+    funext i; rw [unnormalize_coordAt_resize ac (n i) (n' i) (hn2 i)]; rfl
+  simp only [interpolateLin, gridSampleLin, hsrc, hx]
+  rw [interpLin_extBorder_inside n _ _ hin, interpLin_extZero_inside n _ _ hin]
+
+/-- **whichever branch `ImageBatch.pyramid` takes, the finest level is the image sampled at the new grid's points**
+    (`pyramidFinest` of Model/Sample.lean; its branch structure and the operands of its test are tied to the current
+    source by the generated obligations `gen_pyramid_decision` / `gen_pyramid_source_grids`): `img` is the image grid
+    under ANY flag of its own, `ac` the requested convention, `new` the finest-level grid (flagged `ac`, same centre and
+    direction). `extClose` is the comparison of the two cube extents read in exact arithmetic (a positive outcome means
+    equality; `torch.allclose` in floating point). -/
+theorem C04_pyramid_finest_sound {img new : Grid d K} {n n' : Fin d → Nat} (ac : Bool)
+    (hi : img.Valid) (hn : new.Valid) (hin : img.HasSize n) (hnn : new.HasSize n')
+    (hs2 : ac = true → ∀ i, 2 ≤ n i) (hn2 : ∀ i, 2 ≤ n' i) (hfn : new.alignCorners = ac)
+    (hc : new.center = img.center) (hd : new.direction = img.direction)
+    (extClose : Vec d K → Vec d K → Bool) (hclose : ∀ a b, extClose a b = true → a = b)
+    (image : (Fin d → Int) → K) (j : Fin d → Nat)
+    (hhull : ∀ i, 0 ≤ resizeSrc (K := K) ac n n' j i ∧ resizeSrc (K := K) ac n n' j i ≤ ((n i : Nat) : K) - 1) :
+    pyramidFinest img new ac extClose (interpolateLin ac n n' image j)
+        (sampleOnGrid (img.reflag ac) new n n' .zeros image (fun i => ((j i : Nat) : K)))
+      = sampleOnGrid (img.reflag ac) new n n' .zeros image (fun i => ((j i : Nat) : K)) := by
+  simp only [pyramidFinest, pyramidFinestData]
+  split
+  · next h =>
+    exact C04_pyramid_paths_agree ac (reflag_valid hi ac) hn (reflag_hasSize hin ac) hnn hs2 hn2 rfl hfn hc hd
+      (hclose _ _ h) image j hhull
+  · rfl
+
+/-- **the pre-repair decision was unsound** (before 8cc5ad1 the right-hand side of the comparison was
+    `self._grid[0].cube_extent()`, the image grid under ITS OWN flag): a 10-sample axis of unit spacing flagged
+    `align_corners=False` (cube extent 10·1) and the 6-sample axis of spacing 2 with the same centre flagged `True`
+    (cube extent 5·2) have equal `cube_extent()`, yet the map the sampling path applies (`axes = CUBE_CORNERS`) sends
+    the corner `p = 1` to `10/9`: resizing the data corner-to-corner is not the same operation. -/
+theorem C04_pyramid_mixed_flags_refuted :
+    ¬ (∀ (src new : Grid 1 ℚ), src.Valid → new.Valid → src.alignCorners = false → new.alignCorners = true →
+        new.center = src.center → new.direction = src.direction → new.cubeExtent = src.cubeExtent →
+        ∀ p : Vec 1 ℚ, new.applyTransformTo .cubeCorners src .cubeCorners false p = p) := by
+  intro hall
+  have hv : ∀ n s : ℚ, 0 < n → ((⌈n⌉ : Int) : ℚ) = n → s ≠ 0 → ∀ ac,
+      (⟨fun _ => n, fun _ => 0, fun _ => s, fun _ _ => 1, ac⟩ : Grid 1 ℚ).Valid := by
+    intro n s hn hc hs ac
+    refine ⟨fun _ => hs, ?_, ?_⟩
+    · ext i j; fin_cases i; fin_cases j; simp [Matrix.mul_apply]
+    · intro i; simp only [Grid.sizeTensor, HasFloor.ceil, Nat.cast_zero, hn.ne', if_false, hc]; exact hn.ne'
+  let src : Grid 1 ℚ := ⟨fun _ => 10, fun _ => 0, fun _ => 1, fun _ _ => 1, false⟩
+  let new : Grid 1 ℚ := ⟨fun _ => 6, fun _ => 0, fun _ => 2, fun _ _ => 1, true⟩
+  have hsv : src.Valid := hv 10 1 (by norm_num) (by norm_num) (by norm_num) _
+  have hnv : new.Valid := hv 6 2 (by norm_num) (by norm_num) (by norm_num) _
+  have hsT : src.sizeTensor = fun _ => 10 := by funext i; simp [src, Grid.sizeTensor, HasFloor.ceil]
+  have hnT : new.sizeTensor = fun _ => 6 := by funext i; simp [new, Grid.sizeTensor, HasFloor.ceil]
+  have hext : new.cubeExtent = src.cubeExtent := by
+    funext i; simp only [Grid.cubeExtent, hsT, hnT, Vec.mul]; simp [src, new]; norm_num
+  have := hall src new hsv hnv rfl rfl rfl rfl hext (fun _ => 1)
+  rw [applyTransformTo_eq hnv hsv _ _ (fun _ i => by rw [hnT]; norm_num) (fun _ i => by rw [hsT]; norm_num)] at this
+  have h0 := congrFun this 0
+  simp only [fromGrid, toGrid, Grid.origin, Grid.originOffset, Grid.affine, Grid.inverseAffine, hsT, hnT] at h0
+  simp [src, new, Mat.mul, Mat.diag, Mat.mulVec, Mat.transpose, Vec.add, Vec.sub, sumFin] at h0
+  norm_num at h0
+
 /-! ### non-vacuity -/
 example : tensorCrop 10 2 (-3) = ⟨11, 2⟩ ∧ gridCrop 10 2 (-3) = ⟨11, 2⟩ := by decide
 example : tensorCenterPad 5 8 = ⟨8, -1⟩ ∧ tensorCenterCrop 9 4 = ⟨4, 2⟩ := by decide
+
+/-- the hypotheses of `C04_pyramid_resize_path_sound` hold for a rotated anisotropic pair: 9×5 samples of spacing
+    (1, 3) resized to 5×3 samples with `align_corners=True` — spacing doubles, corner-to-corner extent (8, 12) stays. -/
+example : pyrSrc.Valid ∧ pyrNew.Valid ∧ pyrSrc.HasSize ![9, 5] ∧ pyrNew.HasSize ![5, 3] ∧
+    pyrSrc.alignCorners = true ∧ pyrNew.alignCorners = true ∧ pyrNew.center = pyrSrc.center ∧
+    pyrNew.direction = pyrSrc.direction ∧ pyrNew.cubeExtent = pyrSrc.cubeExtent ∧ pyrNew.spacing ≠ pyrSrc.spacing :=
+  ⟨pyrSrc_valid, pyrNew_valid, pyrSrc_hasSize, pyrNew_hasSize, rfl, rfl, rfl, rfl, pyr_cubeExtent,
+    fun h => by have := congrFun h 0; simp [pyrSrc, pyrNew] at this⟩
+
+/-- and its conclusion on that pair. -/
+example (p : Vec 2 ℚ) : pyrNew.applyTransformTo .cubeCorners pyrSrc .cubeCorners false p = p :=
+  C04_pyramid_resize_path_sound true pyrSrc_valid pyrNew_valid pyrSrc_hasSize pyrNew_hasSize
+    (fun _ i => by fin_cases i <;> simp) (fun _ i => by fin_cases i <;> simp) rfl rfl rfl rfl pyr_cubeExtent p
 
 end Deepali
